@@ -13,12 +13,12 @@ CORR = "corr:C13:evo"
 
 def run(ctx):
     quick = ctx.quick()
-    npairs = 2 if quick else 10
+    npairs = 2 if quick else 6
     bins0, berr0 = build_tools(ctx.scratch)
     evo = evolution_specs(ctx, npairs, None if berr0 else bins0)
-    cres, thm, ref, ref_err, bins, berr, units = common_setup(ctx, PROPS, 2 if quick else 30, evo + [wide_spec(ctx)])
-    nrand = 3 if quick else 30
-    ntl1 = 3 if quick else 30
+    cres, thm, ref, ref_err, bins, berr, units = common_setup(ctx, PROPS, 2 if quick else 6, evo + [wide_spec(ctx)])
+    nrand = 3 if quick else 9
+    ntl1 = 3 if quick else 9
     nre = 3 if quick else 8
     stats = {"schemas": 0, "types": 0, "valid_values": 0, "reencodings": 0, "reenc_changed": 0, "oversize_inputs": 0, "truncated_inputs": 0,
              "rw_ops": 0, "kernel_rejected": 0, "units_outside_model": 0, "evolution_pairs": 0, "evolution_values": 0, "evolution_ops": 0}
